@@ -226,7 +226,8 @@ def group_D(thorough):
         for ms in itertools.combinations_with_replacement(range(3), n):
             terms.append(l[ms[0]] if n == 1 else ("obs", "AND", tuple(l[i] for i in ms)))
     if not thorough:
-        terms += [("obs", "AND", (l[0], l[0], l[1])), ("obs", "AND", (l[0], l[1], l[2])), ("obs", "FOLLOWEDBY", (l[0], l[1])), ("obs", "FOLLOWEDBY", (l[1], l[0]))]
+        terms += [("obs", "AND", (l[0], l[0], l[1])), ("obs", "AND", (l[0], l[1], l[2])), ("obs", "FOLLOWEDBY", (l[0], l[1])), ("obs", "FOLLOWEDBY", (l[1], l[0])),
+                  ("obs", "FOLLOWEDBY", (l[0], l[0]))]          # a repeated operand in a sequence: (A FB A) OR (A FB B) is not A FB A
     else:
         terms += [("obs", "FOLLOWEDBY", (l[a], l[b])) for a in range(3) for b in range(3)]
     out = list(terms)
